@@ -50,6 +50,10 @@ from unified_planning.model import (
     AbstractProblem,
     ProblemKind,
 )
+from unified_planning.model.problem_kind_versioning import (
+    LATEST_PROBLEM_KIND_VERSION,
+    equalize_versions,
+)
 from unified_planning.plans import ActionInstance
 from typing import (
     Callable,
@@ -680,6 +684,26 @@ def split_all_ands(exp_list: List[FNode]) -> List[FNode]:
     return end_list
 
 
+def _kind_at_latest_version(problem_kind: ProblemKind) -> ProblemKind:
+    """
+    Returns a copy of the given `ProblemKind` on which the features of every version can be set: a clone
+    when the kind is of the `LATEST_PROBLEM_KIND_VERSION`, otherwise the kind upgraded to that version, the
+    same way the comparison of two kinds of different versions upgrades the older one.
+
+    :param problem_kind: The kind to copy.
+    :return: A new kind, equivalent to the given one, of the latest version.
+    """
+    if problem_kind.version >= LATEST_PROBLEM_KIND_VERSION:
+        return problem_kind.clone()
+    features, _, version = equalize_versions(
+        problem_kind.features,
+        set(),
+        problem_kind.version,
+        LATEST_PROBLEM_KIND_VERSION,
+    )
+    return ProblemKind(features, version=version)
+
+
 def rewritten_problem_kind(problem_kind: ProblemKind) -> ProblemKind:
     """
     Returns the `ProblemKind` that a problem of the given kind can have after it has been rebuilt the way
@@ -697,12 +721,15 @@ def rewritten_problem_kind(problem_kind: ProblemKind) -> ProblemKind:
       costs (a numeric fluent used only there is not counted among the fluents of the problem; it is as soon
       as those uses are dropped or replaced by the value of the fluent).
 
+    Some of these features do not exist in the older versions of the `ProblemKind`, so a kind of an older
+    version is first upgraded to the latest one: the returned kind is always of the latest version.
+
     It is the starting point of the `resulting_problem_kind` of the compilers.
 
     :param problem_kind: The kind of the problem given to a compiler.
     :return: The kind of the rewritten problem, a superset of the given kind.
     """
-    new_kind = problem_kind.clone()
+    new_kind = _kind_at_latest_version(problem_kind)
     if new_kind.has_general_numeric_planning():
         new_kind.set_problem_type("SIMPLE_NUMERIC_PLANNING")
     if new_kind.has_fluents_in_boolean_assignments():
